@@ -26,6 +26,7 @@ func createQ4(
 	path string,
 	eds *rsmt2d.ExtendedDataSquare,
 ) error {
+	verifhook.PointKV("q4.before-create", path)
 	mod := os.O_RDWR | os.O_CREATE | os.O_EXCL // ensure we fail if already exist
 	f, err := os.OpenFile(path, mod, filePermissions)
 	if err != nil {
